@@ -200,3 +200,84 @@ MUTANTS = [
 
 """ + DROP_IMPL)]},
 ]
+
+# ---- FRONT-EXHAUSTED: the guard that decides between "advance offset" and "pop the front chunk" ------------------------------
+GUARD = "        if self.chunks.front().map(|chunk| chunk.len()).unwrap_or(0) > self.offset + amt {\n"
+CONSUME_BODY = """        if self.chunks.front().map(|chunk| chunk.len()).unwrap_or(0) > self.offset + amt {
+            self.offset += amt;
+            self.length -= amt;
+        } else {
+            if let Some(chunk) = self.chunks.pop_front() {
+                self.length -= chunk.len() - self.offset
+            }
+            self.offset = 0;
+        }
+"""
+POP_TAIL = """        if let Some(chunk) = self.chunks.pop_front() {
+            self.length -= chunk.len() - self.offset;
+        }
+        self.offset = 0;
+"""
+FE = "FRONT-EXHAUSTED/common::IOQueue::consume/"
+MUTANTS += [
+    # the correct version of the "simplify with as_slice()" refactoring: remaining bytes > amt
+    {"id": "C16-benign-guard-remaining-gt-amt", "prop": "C16", "benign": True, "edits": [
+        (C, CONSUME_BODY, """        if self.as_slice().len() > amt {
+            self.offset += amt;
+            self.length -= amt;
+            return;
+        }
+""" + POP_TAIL)]},
+    {"id": "C16-benign-guard-remaining-local-swapped-branches", "prop": "C16", "benign": True, "edits": [
+        (C, CONSUME_BODY, """        let remaining = self.as_slice().len();
+        if amt >= remaining {
+""" + POP_TAIL.replace("        ", "            ").replace("            }", "            }") + """        } else {
+            self.length -= amt;
+            self.offset += amt;
+        }
+""")]},
+    {"id": "C16-benign-guard-match-guard", "prop": "C16", "benign": True, "edits": [
+        (C, CONSUME_BODY, """        match self.chunks.front() {
+            Some(front) if front.len() > self.offset + amt => {
+                self.offset += amt;
+                self.length -= amt;
+            }
+            _ => {
+                if let Some(chunk) = self.chunks.pop_front() {
+                    self.length -= chunk.len() - self.offset;
+                }
+                self.offset = 0;
+            }
+        }
+""")]},
+    {"id": "C16-benign-guard-end-local-negated", "prop": "C16", "benign": True, "edits": [
+        (C, CONSUME_BODY, """        let front_len = self.chunks.front().map_or(0, |front| front.len());
+        let end = self.offset + amt;
+        if !(end >= front_len) {
+            self.offset = end;
+            self.length -= amt;
+            return;
+        }
+""" + POP_TAIL)]},
+    {"id": "C16-benign-guard-difference-form", "prop": "C16", "benign": True, "edits": [
+        (C, GUARD, "        if amt < self.chunks.front().map(|chunk| chunk.len()).unwrap_or(0) - self.offset {\n")]},
+    # the seed: as_slice() already excludes offset, so offset is counted twice and the chunk is popped with bytes left
+    {"id": "C16-guard-offset-counted-twice", "prop": "C16", "expect": FE + "pop_front-guard", "edits": [
+        (C, GUARD, "        if self.as_slice().len() > self.offset + amt {\n")]},
+    {"id": "C16-guard-total-length-instead-of-front", "prop": "C16", "expect": FE, "edits": [
+        (C, GUARD, "        if self.length > self.offset + amt {\n")]},
+    # near misses: off by one (an exhausted chunk stays queued), offset forgotten (slice runs past the chunk)
+    {"id": "C16-guard-ge-keeps-exhausted-chunk", "prop": "C16", "expect": FE + "keep-guard", "edits": [
+        (C, GUARD, "        if self.chunks.front().map(|chunk| chunk.len()).unwrap_or(0) >= self.offset + amt {\n")]},
+    {"id": "C16-guard-ignores-offset", "prop": "C16", "expect": FE + "keep-guard", "edits": [
+        (C, GUARD, "        if self.chunks.front().map(|chunk| chunk.len()).unwrap_or(0) > amt {\n")]},
+    {"id": "C16-guard-remaining-ge-amt", "prop": "C16", "expect": FE + "keep-guard", "edits": [
+        (C, CONSUME_BODY, """        if self.as_slice().len() >= amt {
+            self.offset += amt;
+            self.length -= amt;
+            return;
+        }
+""" + POP_TAIL)]},
+    {"id": "C16-guard-pops-one-byte-early", "prop": "C16", "expect": FE + "pop_front-guard", "edits": [
+        (C, GUARD, "        if self.chunks.front().map(|chunk| chunk.len()).unwrap_or(0) > self.offset + amt + 1 {\n")]},
+]
